@@ -1,25 +1,1287 @@
-//! C11 — not built yet (stub).
+//! C11 — cursor pagination is complete, duplicate-free and safe.
+//!
+//! Finder (implementation alone): a full walk (follow `next_cursor` until absent) must return
+//! exactly the hits of ONE request whose limit covers all matches — same ids, same order, same
+//! score bits; `total_hits_estimate` ≤ true matches on every response and exact for
+//! `execution: "bm25"`; a cursor replayed against a changed index (commit with adds,
+//! delete-only commit, compaction) or against another sort plan must be rejected with an error.
+//!
+//! Correspondence (model `SL.Cursor`): page boundaries / tie order / `returned` / totals of the
+//! model's `walkPages` vs the real pages; every real cursor parsed by the model, re-encoded by the
+//! model byte for byte, plan hash (CRC-32) recomputed; index generations after commit /
+//! delete-only commit / compaction vs the real manifest; decode outcome class (ok / error) on
+//! ASCII-mutated cursors (hex level, field level, JSON level).
+use crate::idx::{self};
 use crate::proto::Driver;
 use crate::rng::Rng;
 use crate::summary::Summary;
+use crate::util::{guarded, hex, scratch, unhex};
 use crate::{Prop, Tier};
+use searchlite_core::api::reader::IndexReader;
+use searchlite_core::api::Index;
 use serde_json::{json, Value};
+use std::collections::{BTreeMap, BTreeSet};
 
-pub struct Stub;
-pub static P: Stub = Stub;
+pub struct C11;
+pub static P: C11 = C11;
 
-impl Prop for Stub {
+const WORDS: [&str; 6] = ["rust", "search", "engine", "fast", "lite", "index"];
+/// keyword values: ≤ 7 bytes (rank encoding), including bytes that serde_json escapes and
+/// multi-byte UTF-8 (inside the JSON payload only — the cursor string itself stays ASCII hex)
+const TAGS: [&str; 9] = ["a", "b", "c", "ab", "zz", "A", "é", "q\"x", "t\tb"];
+const I64S: [i64; 9] = [-2, -1, 0, 1, 2, 3, 7, i64::MIN, i64::MAX];
+const F64S: [f64; 10] = [0.5, 1.5, 2.25, -3.0, 1e16, 0.1, 0.30000000000000004, 1.0e-7, 123456.789, 5e-324];
+
+fn schema_json() -> Value {
+  json!({
+    "doc_id_field": "_id",
+    "text_fields": [{"name": "body", "analyzer": "default", "stored": true, "indexed": true, "nullable": false}],
+    "keyword_fields": [{"name": "tag", "stored": true, "indexed": true, "fast": true, "nullable": true}],
+    "numeric_fields": [
+      {"name": "n", "i64": true, "fast": true, "stored": true, "nullable": true},
+      {"name": "x", "i64": false, "fast": true, "stored": true, "nullable": true}
+    ]
+  })
+}
+
+// ---------------------------------------------------------------------------------------------
+// running requests
+
+#[derive(Clone, Debug)]
+struct Page {
+  ids: Vec<String>,
+  bits: Vec<u32>,
+  total: u64,
+  next: Option<String>,
+}
+
+#[derive(Clone, Debug)]
+enum Out {
+  Ok(Page),
+  Err(String),
+  Panic(String),
+}
+
+impl Out {
+  fn class(&self) -> &'static str {
+    match self {
+      Out::Ok(_) => "ok",
+      Out::Err(_) => "error",
+      Out::Panic(_) => "panic",
+    }
+  }
+  fn to_json(&self) -> Value {
+    match self {
+      Out::Ok(p) => json!({"ok": {"ids": p.ids, "bits": p.bits, "total": p.total, "next": p.next}}),
+      Out::Err(e) => json!({"error": e}),
+      Out::Panic(e) => json!({"panic": e}),
+    }
+  }
+}
+
+fn base_req(case: &Value, sort: &Value, limit: usize, cursor: Option<&str>) -> Value {
+  let mut r = json!({
+    "query": case["query"].clone(),
+    "limit": limit,
+    "sort": sort.clone(),
+    "execution": case["execution"].clone(),
+    "return_stored": false,
+  });
+  if let Some(c) = cursor {
+    r["cursor"] = json!(c);
+  }
+  r
+}
+
+fn run(reader: &IndexReader, req: &Value) -> Out {
+  let r = match idx::request(req) {
+    Ok(r) => r,
+    Err(e) => return Out::Err(e),
+  };
+  match guarded(|| reader.search(&r)) {
+    Ok(Ok(res)) => Out::Ok(Page {
+      ids: res.hits.iter().map(|h| h.doc_id.clone()).collect(),
+      bits: res.hits.iter().map(|h| h.score.to_bits()).collect(),
+      total: res.total_hits_estimate,
+      next: res.next_cursor.clone(),
+    }),
+    Ok(Err(e)) => Out::Err(format!("{e:#}")),
+    Err(p) => Out::Panic(p),
+  }
+}
+
+// ---------------------------------------------------------------------------------------------
+// sort plans and model keys
+
+#[derive(Clone, Debug, PartialEq)]
+struct PlanField {
+  kind: u8, // 0 score, 1 keyword, 2 i64, 3 f64
+  name: String,
+  desc: bool,
+}
+
+fn plan_of(sort: &Value) -> Vec<PlanField> {
+  let specs = sort.as_array().cloned().unwrap_or_default();
+  if specs.is_empty() {
+    return vec![PlanField { kind: 0, name: "_score".into(), desc: true }];
+  }
+  specs
+    .iter()
+    .map(|s| {
+      let f = s["field"].as_str().unwrap_or("").to_string();
+      let desc = match s["order"].as_str() {
+        Some("desc") => true,
+        Some("asc") => false,
+        _ => f == "_score",
+      };
+      let kind = match f.as_str() {
+        "_score" => 0,
+        "tag" => 1,
+        "n" => 2,
+        _ => 3,
+      };
+      PlanField { kind, name: f, desc }
+    })
+    .collect()
+}
+
+fn plan_json(plan: &[PlanField]) -> Value {
+  Value::Array(plan.iter().map(|f| json!({"kind": f.kind, "name": f.name, "desc": f.desc})).collect())
+}
+
+fn is_score_fast(plan: &[PlanField]) -> bool {
+  plan.len() == 1 && plan[0].kind == 0 && plan[0].desc
+}
+
+/// order-preserving integer of an f32 under `total_cmp`
+fn f32_rank(bits: u32) -> i64 {
+  if bits >> 31 == 1 {
+    -((bits & 0x7fff_ffff) as i64) - 1
+  } else {
+    bits as i64
+  }
+}
+
+fn f64_rank(v: f64) -> i64 {
+  let bits = v.to_bits();
+  if bits >> 63 == 1 {
+    -((bits & 0x7fff_ffff_ffff_ffff) as i64) - 1
+  } else {
+    bits as i64
+  }
+}
+
+/// order-preserving integer of a byte string of at most 7 bytes (byte-wise lexicographic order)
+fn str_rank(s: &[u8]) -> Option<i64> {
+  if s.len() > 7 {
+    return None;
+  }
+  let mut k: i64 = 0;
+  for i in 0..7 {
+    k = k * 257 + s.get(i).map(|b| *b as i64 + 1).unwrap_or(0);
+  }
+  Some(k)
+}
+
+fn values_of(v: &Value) -> Vec<Value> {
+  match v {
+    Value::Null => Vec::new(),
+    Value::Array(a) => a.clone(),
+    x => vec![x.clone()],
+  }
+}
+
+/// the rank of the selected value (min for asc, max for desc) of one plan field; `Null` = Missing
+fn part_rank(f: &PlanField, doc: &Value, score_bits: u32) -> Value {
+  match f.kind {
+    0 => json!(f32_rank(score_bits)),
+    1 => {
+      let ranks: Vec<i64> = values_of(&doc["tag"]).iter().filter_map(|v| v.as_str().and_then(|s| str_rank(s.as_bytes()))).collect();
+      let sel = if f.desc { ranks.iter().max() } else { ranks.iter().min() };
+      sel.map(|r| json!(r)).unwrap_or(Value::Null)
+    }
+    2 => {
+      let vs: Vec<i64> = values_of(&doc["n"]).iter().filter_map(|v| v.as_i64()).collect();
+      let sel = if f.desc { vs.iter().max() } else { vs.iter().min() };
+      sel.map(|r| json!(r)).unwrap_or(Value::Null)
+    }
+    _ => {
+      let vs: Vec<i64> = values_of(&doc["x"]).iter().filter_map(|v| v.as_f64()).map(f64_rank).collect();
+      let sel = if f.desc { vs.iter().max() } else { vs.iter().min() };
+      sel.map(|r| json!(r)).unwrap_or(Value::Null)
+    }
+  }
+}
+
+/// where the writer puts each document: segment ordinal = index of the commit batch, doc id =
+/// rank of `_id` inside its batch (`pending_new` is a `BTreeMap<String, _>`)
+fn addresses(commits: &[Vec<Value>]) -> BTreeMap<String, (u64, u64, Value)> {
+  let mut out = BTreeMap::new();
+  for (seg, batch) in commits.iter().enumerate() {
+    let mut ids: Vec<(String, Value)> = batch.iter().map(|d| (d["_id"].as_str().unwrap_or("").to_string(), d.clone())).collect();
+    ids.sort_by(|a, b| a.0.cmp(&b.0));
+    for (k, (id, d)) in ids.into_iter().enumerate() {
+      out.insert(id, (seg as u64, k as u64, d));
+    }
+  }
+  out
+}
+
+/// model keys of the documents of `all` (ids with score bits), in (seg, doc) order
+fn model_keys(plan: &[PlanField], addr: &BTreeMap<String, (u64, u64, Value)>, all: &Page) -> (Vec<Value>, BTreeMap<(u64, u64), String>) {
+  let mut keys: Vec<(u64, u64, Value)> = Vec::new();
+  let mut back = BTreeMap::new();
+  for (id, bits) in all.ids.iter().zip(all.bits.iter()) {
+    if let Some((seg, doc, d)) = addr.get(id) {
+      let parts: Vec<Value> = plan.iter().map(|f| part_rank(f, d, *bits)).collect();
+      keys.push((*seg, *doc, json!({"parts": parts, "seg": seg, "doc": doc})));
+      back.insert((*seg, *doc), id.clone());
+    }
+  }
+  keys.sort_by(|a, b| (a.0, a.1).cmp(&(b.0, b.1)));
+  (keys.into_iter().map(|k| k.2).collect(), back)
+}
+
+// ---------------------------------------------------------------------------------------------
+// the harness's own reading of a real cursor (independent of the model)
+
+#[derive(Clone, Debug, PartialEq)]
+struct CurInfo {
+  generation: u64,
+  returned: u64,
+  plan_hash: Option<u64>,
+  seg: u64,
+  doc: u64,
+}
+
+fn be32(b: &[u8]) -> u64 {
+  ((b[0] as u64) << 24) | ((b[1] as u64) << 16) | ((b[2] as u64) << 8) | b[3] as u64
+}
+
+fn read_cursor(cur: &str, fast: bool) -> Option<CurInfo> {
+  if !cur.is_ascii() || cur.len() % 2 != 0 {
+    return None;
+  }
+  let bytes = unhex(cur);
+  if fast {
+    if bytes.len() != 21 {
+      return None;
+    }
+    Some(CurInfo { generation: be32(&bytes[1..5]), returned: be32(&bytes[17..21]), plan_hash: None, seg: be32(&bytes[9..13]), doc: be32(&bytes[13..17]) })
+  } else {
+    let v: Value = serde_json::from_slice(&bytes).ok()?;
+    Some(CurInfo {
+      generation: v["generation"].as_u64()?,
+      returned: v["returned"].as_u64()?,
+      plan_hash: Some(v["plan_hash"].as_u64()?),
+      seg: v["segment_ord"].as_u64()?,
+      doc: v["doc_id"].as_u64()?,
+    })
+  }
+}
+
+/// does the sort cursor carry an `f64` value whose JSON text is not reproduced by parsing and
+/// printing it again with serde_json (the cursor's own codec)?  Evidence on the implementation's
+/// side only: the same crate the code uses, no model involved.
+fn f64_value_changed_by_json(cur: &str) -> bool {
+  if !cur.is_ascii() || cur.len() % 2 != 0 {
+    return false;
+  }
+  let Ok(text) = String::from_utf8(unhex(cur)) else { return false };
+  let pat = "{\"t\":\"f64\",\"v\":";
+  let mut rest = text.as_str();
+  while let Some(at) = rest.find(pat) {
+    let tail = &rest[at + pat.len()..];
+    let end = tail.find('}').unwrap_or(tail.len());
+    let lex = &tail[..end];
+    match serde_json::from_str::<f64>(lex) {
+      Ok(v) => {
+        if serde_json::to_string(&v).ok().as_deref() != Some(lex) {
+          return true;
+        }
+      }
+      Err(_) => return true,
+    }
+    rest = &tail[end..];
+  }
+  false
+}
+
+// ---------------------------------------------------------------------------------------------
+// cursor mutations (ASCII only)
+
+fn num_edit(old: u64, spec: &str) -> String {
+  if let Some(k) = spec.strip_prefix("add:") {
+    let d: i64 = k.parse().unwrap_or(1);
+    ((old as i64).wrapping_add(d)).to_string()
+  } else if let Some(t) = spec.strip_prefix("lit:") {
+    t.to_string()
+  } else {
+    spec.to_string()
+  }
+}
+
+/// replace the number after `"key":` in a JSON text
+fn json_set_num(text: &str, key: &str, spec: &str) -> Option<String> {
+  let pat = format!("\"{key}\":");
+  let at = text.find(&pat)? + pat.len();
+  let rest = &text[at..];
+  let end = rest.find(|c: char| !(c.is_ascii_digit() || c == '-')).unwrap_or(rest.len());
+  let old: u64 = rest[..end].parse().ok()?;
+  Some(format!("{}{}{}", &text[..at], num_edit(old, spec), &rest[end..]))
+}
+
+/// apply one mutation descriptor to a real cursor; `None` = not applicable to this cursor
+fn mutate(cur: &str, fast: bool, m: &Value) -> Option<String> {
+  let kind = m["m"].as_str()?;
+  let chars: Vec<char> = cur.chars().collect();
+  match kind {
+    "same" => Some(cur.to_string()),
+    "empty" => Some(String::new()),
+    "upper" => Some(cur.to_ascii_uppercase()),
+    "trunc" => {
+      let n = (m["n"].as_u64()? as usize).min(chars.len());
+      Some(chars[..chars.len() - n].iter().collect())
+    }
+    "append" => Some(format!("{cur}{}", m["s"].as_str()?)),
+    "flip" => {
+      if chars.is_empty() {
+        return None;
+      }
+      let p = m["pos"].as_u64()? as usize % chars.len();
+      let c = m["ch"].as_str()?.chars().next()?;
+      if !c.is_ascii() {
+        return None;
+      }
+      let mut cs = chars.clone();
+      cs[p] = c;
+      Some(cs.into_iter().collect())
+    }
+    "plus" => {
+      // a byte whose high nibble is 0 written as "+d": the same byte for `u8::from_str_radix`
+      let n = chars.len() / 2;
+      if n == 0 {
+        return None;
+      }
+      let start = m["pos"].as_u64()? as usize % n;
+      for k in 0..n {
+        let i = 2 * ((start + k) % n);
+        if chars[i] == '0' {
+          let mut cs = chars.clone();
+          cs[i] = '+';
+          return Some(cs.into_iter().collect());
+        }
+      }
+      None
+    }
+    "u32" => {
+      // score cursor fields, byte level
+      if !fast || cur.len() != 42 {
+        return None;
+      }
+      let mut b = unhex(cur);
+      let (lo, hi) = match m["field"].as_str()? {
+        "generation" => (1, 5),
+        "score" => (5, 9),
+        "seg" => (9, 13),
+        "doc" => (13, 17),
+        "returned" => (17, 21),
+        _ => return None,
+      };
+      let old = be32(&b[lo..hi]);
+      let new: u64 = num_edit(old, m["val"].as_str()?).parse::<i64>().ok()? as u64 & 0xffff_ffff;
+      b[lo..hi].copy_from_slice(&(new as u32).to_be_bytes());
+      Some(hex(&b))
+    }
+    "version" => {
+      let v = m["val"].as_u64()? as u8;
+      if fast {
+        if cur.len() != 42 {
+          return None;
+        }
+        let mut b = unhex(cur);
+        b[0] = v;
+        Some(hex(&b))
+      } else {
+        let text = String::from_utf8(unhex(cur)).ok()?;
+        Some(hex(json_set_num(&text, "version", &format!("lit:{v}"))?.as_bytes()))
+      }
+    }
+    _ => {
+      // JSON-level edits of a sort cursor
+      if fast {
+        return None;
+      }
+      let text = String::from_utf8(unhex(cur)).ok()?;
+      let out = match kind {
+        "json_num" => json_set_num(&text, m["key"].as_str()?, m["val"].as_str()?)?,
+        "json_ws" => {
+          // whitespace around structural characters outside strings
+          let mut o = String::new();
+          let mut in_str = false;
+          let mut esc = false;
+          for c in text.chars() {
+            if in_str {
+              o.push(c);
+              if esc {
+                esc = false;
+              } else if c == '\\' {
+                esc = true;
+              } else if c == '"' {
+                in_str = false;
+              }
+            } else {
+              match c {
+                '"' => {
+                  in_str = true;
+                  o.push(c);
+                }
+                ':' | ',' | '{' | '}' | '[' | ']' => {
+                  o.push(' ');
+                  o.push(c);
+                  o.push_str(" \n\t");
+                }
+                _ => o.push(c),
+              }
+            }
+          }
+          o
+        }
+        "json_reorder" => {
+          // move the first member to the end
+          let inner = text.strip_prefix('{')?.strip_suffix('}')?;
+          let comma = inner.find(',')?;
+          format!("{{{},{}}}", &inner[comma + 1..], &inner[..comma])
+        }
+        "json_append" => {
+          // text inserted before the final `}` (duplicate key, unknown key …)
+          let inner = text.strip_suffix('}')?;
+          format!("{inner}{}}}", m["text"].as_str()?)
+        }
+        "json_drop" => {
+          let key = m["key"].as_str()?;
+          let pat = format!("\"{key}\":");
+          let at = text.find(&pat)?;
+          let rest = &text[at + pat.len()..];
+          let end = rest.find(|c: char| !(c.is_ascii_digit() || c == '-'))?;
+          let mut o = format!("{}{}", &text[..at], &rest[end..]);
+          o = o.replace("{,", "{").replace(",,", ",");
+          o
+        }
+        "json_sub" => {
+          let from = m["from"].as_str()?;
+          if !text.contains(from) {
+            return None;
+          }
+          text.replacen(from, m["to"].as_str()?, 1)
+        }
+        "json_tail" => format!("{text}{}", m["text"].as_str()?),
+        _ => return None,
+      };
+      if !out.is_ascii() && false {
+        return None;
+      }
+      Some(hex(out.as_bytes()))
+    }
+  }
+}
+
+fn gen_mutation(rng: &mut Rng) -> Value {
+  const CH: [&str; 14] = ["0", "7", "a", "f", "A", "F", "+", "-", "g", " ", "z", "x", "/", ":"];
+  match rng.below(22) {
+    0 => json!({"m": "empty"}),
+    1 => json!({"m": "upper"}),
+    2 => json!({"m": "trunc", "n": 1 + rng.below(3)}),
+    3 => json!({"m": "append", "s": *rng.pick(&["0", "00", "+1", "zz", " "])}),
+    4 | 5 | 6 => json!({"m": "flip", "pos": rng.below(4096), "ch": *rng.pick(&CH)}),
+    7 => json!({"m": "plus", "pos": rng.below(4096)}),
+    8 => json!({"m": "u32", "field": *rng.pick(&["generation", "score", "seg", "doc", "returned"]), "val": *rng.pick(&["add:1", "add:-1", "lit:0", "lit:50000", "lit:50001", "lit:4294967295"])}),
+    9 => json!({"m": "version", "val": *rng.pick(&[0u64, 1, 2, 3, 255])}),
+    10 | 11 => json!({"m": "json_num", "key": *rng.pick(&["generation", "plan_hash", "returned", "segment_ord", "doc_id", "version"]),
+      "val": *rng.pick(&["add:1", "add:-1", "lit:0", "lit:50000", "lit:50001", "lit:4294967295", "lit:4294967296", "lit:-1", "lit:-0", "lit:1.0", "lit:1e0", "lit:01", "lit:256", "lit:\"1\"", "lit:null", "lit:18446744073709551616"])}),
+    12 => json!({"m": "json_ws"}),
+    13 => json!({"m": "json_reorder"}),
+    14 => json!({"m": "json_append", "text": *rng.pick(&[",\"returned\":1", ",\"version\":2", ",\"zzz\":true", ",\"zzz\":null", ",\"zzz\":-1.5e3", ",\"zzz\":\"a\\u00e9\\n\"", ",\"zzz\":[1]", ",\"zzz\":{}", ",\"zzz\":tru", ",", ",\"values\":[]"])}),
+    15 => json!({"m": "json_drop", "key": *rng.pick(&["generation", "plan_hash", "returned", "segment_ord", "doc_id", "version"])}),
+    16 | 17 => {
+      let subs: [(&str, &str); 14] = [
+        ("\"t\":\"i64\"", "\"t\":\"f64\""),
+        ("\"t\":\"f64\"", "\"t\":\"i64\""),
+        ("\"t\":\"str\"", "\"t\":\"score\""),
+        ("\"t\":\"score\"", "\"t\":\"i64\""),
+        ("{\"t\":\"missing\"}", "{\"t\":\"missing\",\"v\":null}"),
+        ("{\"t\":\"missing\"}", "{}"),
+        ("{\"t\":\"missing\"}", "{\"t\":\"Missing\"}"),
+        ("\"values\":[", "\"values\":[{\"t\":\"missing\"},"),
+        ("\"values\":[{", "\"values\":[ {"),
+        ("}]}", "}]} "),
+        ("}]}", "}]}x"),
+        ("}]}", "}}"),
+        ("\"v\":", "\"v\" : "),
+        ("{\"t\":", "{\"v\":1,\"t\":"),
+      ];
+      let (f, t) = *rng.pick(&subs);
+      json!({"m": "json_sub", "from": f, "to": t})
+    }
+    18 => json!({"m": "json_tail", "text": *rng.pick(&[" ", "\n", "{}", "x", ","])}),
+    19 => json!({"m": "same"}),
+    _ => json!({"m": "flip", "pos": rng.below(4096), "ch": *rng.pick(&CH)}),
+  }
+}
+
+// ---------------------------------------------------------------------------------------------
+// case generation
+
+fn gen_doc(rng: &mut Rng, id: String, vocab: usize) -> Value {
+  let n = 1 + rng.below(4);
+  let body: Vec<&str> = (0..n).map(|_| WORDS[rng.below(vocab)]).collect();
+  let mut d = json!({"_id": id, "body": body.join(" ")});
+  // tag: missing / single / multi
+  match rng.below(6) {
+    0 => {}
+    1 => d["tag"] = json!([*rng.pick(&TAGS), *rng.pick(&TAGS)]),
+    _ => {
+      let k = 2 + rng.below(TAGS.len() - 1);
+      d["tag"] = json!(*rng.pick(&TAGS[..k]))
+    }
+  }
+  match rng.below(6) {
+    0 => {}
+    1 => d["n"] = json!([*rng.pick(&I64S), *rng.pick(&I64S[..6])]),
+    _ => {
+      let k = 2 + rng.below(I64S.len() - 1);
+      d["n"] = json!(*rng.pick(&I64S[..k]))
+    }
+  }
+  match rng.below(7) {
+    0 => {}
+    1 => d["x"] = json!([*rng.pick(&F64S), *rng.pick(&F64S)]),
+    2 | 3 => d["x"] = json!((rng.f64() - 0.3) * 1000.0),
+    _ => {
+      let k = 2 + rng.below(F64S.len() - 1);
+      d["x"] = json!(*rng.pick(&F64S[..k]))
+    }
+  }
+  d
+}
+
+fn gen_sort(rng: &mut Rng) -> Value {
+  let order = |rng: &mut Rng| -> Option<&'static str> {
+    match rng.below(3) {
+      0 => Some("asc"),
+      1 => Some("desc"),
+      _ => None,
+    }
+  };
+  let spec = |f: &str, o: Option<&str>| -> Value {
+    match o {
+      Some(o) => json!({"field": f, "order": o}),
+      None => json!({"field": f}),
+    }
+  };
+  match rng.below(10) {
+    0 | 1 | 2 => json!([]),
+    3 => json!([spec("_score", order(rng))]),
+    _ => {
+      let mut fields = vec!["_score", "tag", "n", "x"];
+      rng.shuffle(&mut fields);
+      let k = 1 + rng.below(3);
+      Value::Array(fields[..k].iter().map(|f| spec(f, order(rng))).collect())
+    }
+  }
+}
+
+fn gen_walk(rng: &mut Rng) -> Value {
+  let nseg = 1 + rng.below(4);
+  let vocab = 2 + rng.below(WORDS.len() - 1);
+  let mut commits: Vec<Vec<Value>> = Vec::new();
+  // segments with the same composition give equal BM25 statistics ⇒ score ties across segments
+  let clone_segments = rng.chance(1, 2);
+  let first: Vec<Value> = (0..(1 + rng.below(9))).map(|k| gen_doc(rng, format!("s0_{k:02}"), vocab)).collect();
+  commits.push(first.clone());
+  for s in 1..nseg {
+    if clone_segments && rng.chance(2, 3) {
+      let mut batch = Vec::new();
+      for (k, d) in first.iter().enumerate() {
+        let mut d = d.clone();
+        d["_id"] = json!(format!("s{s}_{k:02}"));
+        if rng.chance(1, 4) {
+          // perturb one sort value, keep the body (score tie stays)
+          d["n"] = json!(*rng.pick(&I64S[..6]));
+        }
+        batch.push(d);
+      }
+      commits.push(batch);
+    } else {
+      let m = 1 + rng.below(9);
+      commits.push((0..m).map(|k| gen_doc(rng, format!("s{s}_{k:02}"), vocab)).collect());
+    }
+  }
+  let all_ids: Vec<String> = commits.iter().flatten().map(|d| d["_id"].as_str().unwrap().to_string()).collect();
+  let pre_delete: Vec<String> = if rng.chance(1, 3) { (0..(1 + rng.below(2))).map(|_| rng.pick(&all_ids).clone()).collect() } else { Vec::new() };
+  let query = match rng.below(8) {
+    0 | 1 => json!({"type": "match_all"}),
+    2 => json!({"type": "term", "field": "body", "value": WORDS[rng.below(vocab)]}),
+    3 => json!(WORDS[rng.below(vocab)]),
+    _ => {
+      // distinct words (a repeated word in a query string trips a debug assertion — C16's finding)
+      let mut ws: Vec<&str> = WORDS[..vocab].to_vec();
+      rng.shuffle(&mut ws);
+      let k = (2 + rng.below(3)).min(ws.len());
+      json!(ws[..k].join(" "))
+    }
+  };
+  let sort = gen_sort(rng);
+  let post = *rng.pick(&["delete_only", "delete_only", "commit_add", "compact", "other_sort", "other_sort", "reopen", "delete_cursor_doc"]);
+  let other_sort = loop {
+    let s = gen_sort(rng);
+    if plan_of(&s) != plan_of(&sort) {
+      break s;
+    }
+  };
+  let nm = 6;
+  let mut mutations: Vec<Value> = (0..nm).map(|_| gen_mutation(rng)).collect();
+  // the advance cap on both encodings, in every case (the inapplicable one is skipped)
+  let cap = *rng.pick(&["lit:50001", "lit:50000"]);
+  mutations.push(json!({"m": "u32", "field": "returned", "val": cap}));
+  mutations.push(json!({"m": "json_num", "key": "returned", "val": cap}));
+  json!({
+    "kind": "walk",
+    "commits": commits,
+    "pre_delete": pre_delete,
+    "query": query,
+    "sort": sort,
+    "limit": 1 + rng.below(7),
+    "execution": *rng.pick(&["wand", "wand", "bm25"]),
+    "post": post,
+    "post_pick": rng.below(1000),
+    "other_sort": other_sort,
+    "mutations": mutations,
+    "repeat": 1,
+  })
+}
+
+// ---------------------------------------------------------------------------------------------
+
+fn build(case: &Value) -> Result<(tempfile::TempDir, Index), String> {
+  let dir = scratch();
+  let idx = idx::create(dir.path(), &schema_json(), false)?;
+  for batch in case["commits"].as_array().cloned().unwrap_or_default() {
+    let docs = batch.as_array().cloned().unwrap_or_default();
+    idx::add_commit(&idx, &docs)?;
+  }
+  let pre: Vec<String> = case["pre_delete"].as_array().map(|a| a.iter().filter_map(|x| x.as_str().map(|s| s.to_string())).collect()).unwrap_or_default();
+  if !pre.is_empty() {
+    idx::delete_commit(&idx, &pre)?;
+  }
+  Ok((dir, idx))
+}
+
+/// segments of the real manifest as the model sees them
+fn manifest_view(idx: &Index) -> (u64, Value) {
+  let m = idx.manifest();
+  let g = m.segments.iter().map(|s| s.generation as u64).max().unwrap_or(0);
+  let segs: Vec<Value> = m
+    .segments
+    .iter()
+    .map(|s| {
+      let mut d: Vec<u64> = s.deleted_docs.iter().map(|x| *x as u64).collect();
+      d.sort();
+      d.dedup();
+      json!({"generation": s.generation, "docs": s.doc_count, "deleted": d})
+    })
+    .collect();
+  (g, Value::Array(segs))
+}
+
+fn canon_segs(v: &Value) -> Value {
+  Value::Array(
+    v.as_array()
+      .cloned()
+      .unwrap_or_default()
+      .iter()
+      .map(|s| {
+        let mut d: Vec<u64> = s["deleted"].as_array().map(|a| a.iter().filter_map(|x| x.as_u64()).collect()).unwrap_or_default();
+        d.sort();
+        d.dedup();
+        json!({"generation": s["generation"], "docs": s["docs"], "deleted": d})
+      })
+      .collect(),
+  )
+}
+
+/// rank form of a value of a decoded cursor state (model JSON) for the model's `page`
+fn state_part(v: &Value, kind: u8) -> Option<Value> {
+  // a value whose type differs from the column's compares `Equal` in `SortKeyPart::cmp`; the rank
+  // abstraction cannot express that, such cursors are not paged by the model
+  let t = v["t"].as_str()?;
+  let fits = matches!((t, kind), ("score", 0) | ("str", 1) | ("i64", 2) | ("f64", 3) | ("missing", _));
+  if !fits {
+    return None;
+  }
+  match t {
+    "score" => Some(json!(f32_rank(v["v"].as_u64()? as u32))),
+    "i64" => Some(json!(v["v"].as_i64()?)),
+    "f64" => Some(json!(f64_rank(v["lex"].as_str()?.parse::<f64>().ok()?))),
+    "str" => {
+      let b = unhex(v["hex"].as_str()?);
+      Some(json!(str_rank(&b)?))
+    }
+    "missing" => Some(Value::Null),
+    _ => None,
+  }
+}
+
+struct Walk {
+  pages: Vec<Page>,
+  error: Option<(usize, Out)>,
+}
+
+fn walk(reader: &IndexReader, case: &Value, sort: &Value, limit: usize, max_pages: usize) -> Walk {
+  let mut pages = Vec::new();
+  let mut cursor: Option<String> = None;
+  loop {
+    let out = run(reader, &base_req(case, sort, limit, cursor.as_deref()));
+    match out {
+      Out::Ok(p) => {
+        cursor = p.next.clone();
+        pages.push(p);
+        if cursor.is_none() {
+          return Walk { pages, error: None };
+        }
+        if pages.len() > max_pages {
+          return Walk { pages, error: Some((max_pages, Out::Err("walk does not terminate".into()))) };
+        }
+      }
+      o => {
+        let at = pages.len();
+        return Walk { pages, error: Some((at, o)) };
+      }
+    }
+  }
+}
+
+impl C11 {
+  fn run_walk(&self, drv: &mut Driver, case: &Value, s: &mut Summary) {
+    let (_dir, idx) = match build(case) {
+      Ok(x) => x,
+      Err(e) => {
+        s.count("build_failed");
+        s.notes.push(format!("C11 build failed: {e}"));
+        s.case(case, false);
+        return;
+      }
+    };
+    let commits: Vec<Vec<Value>> = case["commits"].as_array().cloned().unwrap_or_default().iter().map(|b| b.as_array().cloned().unwrap_or_default()).collect();
+    let ndocs: usize = commits.iter().map(|b| b.len()).sum();
+    let addr = addresses(&commits);
+    let sort = case["sort"].clone();
+    let plan = plan_of(&sort);
+    let fast = is_score_fast(&plan);
+    let limit = case["limit"].as_u64().unwrap_or(1).max(1) as usize;
+    let exec = case["execution"].as_str().unwrap_or("wand").to_string();
+    let exhaustive = exec == "bm25" || !fast;
+    let reader = match idx.reader() {
+      Ok(r) => r,
+      Err(e) => {
+        s.notes.push(format!("C11 reader failed: {e}"));
+        s.case(case, false);
+        return;
+      }
+    };
+    s.count(&format!("plan.{}", if fast { "score_fast".to_string() } else { plan.iter().map(|f| format!("{}{}", ["score", "kw", "i64", "f64"][f.kind as usize], if f.desc { "-" } else { "+" })).collect::<Vec<_>>().join(",") }));
+    s.count(&format!("exec.{exec}"));
+    s.count(&format!("limit.{limit}"));
+    s.count(&format!("segments.{}", commits.len()));
+
+    // ---- reference: one request whose limit covers all matches; truth = exhaustive bm25 ----
+    let all = match run(&reader, &base_req(case, &sort, ndocs + 5, None)) {
+      Out::Ok(p) => p,
+      o => {
+        s.fail("all.request-failed", "the single request covering all matches failed", case, o.to_json());
+        s.case(case, false);
+        return;
+      }
+    };
+    let mut truth_case = case.clone();
+    truth_case["execution"] = json!("bm25");
+    let truth = match run(&reader, &base_req(&truth_case, &sort, ndocs + 5, None)) {
+      Out::Ok(p) => p.ids.len() as u64,
+      _ => all.ids.len() as u64,
+    };
+    if all.next.is_some() {
+      s.fail("all.has-next-cursor", "a request whose limit exceeds the number of documents returned a next_cursor", case, json!({"hits": all.ids.len()}));
+    }
+    if all.total > truth {
+      s.fail("total.exceeds-matches", "total_hits_estimate exceeds the true number of matches", case, json!({"total": all.total, "truth": truth, "where": "single request"}));
+    }
+    if exec == "bm25" && all.total != truth {
+      s.fail("total.inexact-bm25", "total_hits_estimate is not exact for execution bm25", case, json!({"total": all.total, "truth": truth, "where": "single request"}));
+    }
+
+    // ---- the walk (finder: implementation alone) ----
+    let repeat = case["repeat"].as_u64().unwrap_or(1).max(1);
+    let mut w = walk(&reader, case, &sort, limit, ndocs + 3);
+    for _ in 1..repeat {
+      if w.error.is_some() {
+        break;
+      }
+      w = walk(&reader, case, &sort, limit, ndocs + 3);
+    }
+    let npages = w.pages.len();
+    let walked_ids: Vec<String> = w.pages.iter().flat_map(|p| p.ids.iter().cloned()).collect();
+    let walked_bits: Vec<u32> = w.pages.iter().flat_map(|p| p.bits.iter().cloned()).collect();
+    // ties in the primary sort value among the matches
+    let (keys, back) = model_keys(&plan, &addr, &all);
+    let primary: Vec<String> = keys.iter().map(|k| k["parts"][0].to_string()).collect();
+    let distinct_primary: BTreeSet<&String> = primary.iter().collect();
+    let has_tie = distinct_primary.len() < primary.len();
+    let nontrivial = npages >= 2 && has_tie;
+    s.case(case, nontrivial);
+    s.add("pages", npages as u64);
+    s.add("hits_walked", walked_ids.len() as u64);
+    if has_tie {
+      s.count("walks_with_primary_ties");
+    }
+    if npages >= 2 {
+      s.count("walks_with_2plus_pages");
+    }
+    if let Some((at, o)) = &w.error {
+      // the cursor that was sent with the failing request
+      let sent = if *at > 0 { w.pages[*at - 1].next.clone() } else { None };
+      let f64_changed = sent.as_deref().map(|c| !fast && f64_value_changed_by_json(c)).unwrap_or(false);
+      let sig = match o {
+        Out::Panic(_) => "walk.page-panic",
+        _ if f64_changed => "walk.page-error.f64-sort-value-changed-by-cursor-json",
+        _ => "walk.page-error",
+      };
+      s.fail(sig, "a page of the walk failed although the index did not change", case, json!({"page": at, "outcome": o.to_json(), "pages_before": w.pages.iter().map(|p| p.ids.clone()).collect::<Vec<_>>()}));
+    } else {
+      if walked_ids != all.ids {
+        let mut seen = BTreeSet::new();
+        let dup: Vec<&String> = walked_ids.iter().filter(|i| !seen.insert((*i).clone())).collect();
+        let all_set: BTreeSet<&String> = all.ids.iter().collect();
+        let missing: Vec<&String> = all.ids.iter().filter(|i| !seen.contains(*i)).collect();
+        let extra: Vec<&String> = walked_ids.iter().filter(|i| !all_set.contains(*i)).collect();
+        let sig = if !dup.is_empty() {
+          "walk.duplicate"
+        } else if !missing.is_empty() {
+          "walk.missing"
+        } else if !extra.is_empty() {
+          "walk.extra"
+        } else {
+          "walk.order"
+        };
+        s.fail(sig, "the concatenated pages differ from the single request covering all matches", case, json!({"walk": w.pages.iter().map(|p| p.ids.clone()).collect::<Vec<_>>(), "all": all.ids, "dup": dup, "missing": missing, "extra": extra}));
+      } else if walked_bits != all.bits {
+        s.fail("walk.score-differs", "a hit has a different score in the walk than in the single request", case, json!({"walk": walked_bits, "all": all.bits}));
+      }
+      for (i, p) in w.pages.iter().enumerate() {
+        if i + 1 < npages && p.ids.len() != limit {
+          s.fail("walk.short-page", "a page that is not the last one has fewer hits than the limit", case, json!({"page": i, "hits": p.ids.len(), "limit": limit}));
+        }
+      }
+    }
+    for (i, p) in w.pages.iter().enumerate() {
+      if p.total > truth {
+        s.fail("total.exceeds-matches", "total_hits_estimate exceeds the true number of matches", case, json!({"total": p.total, "truth": truth, "page": i}));
+      }
+      if exec == "bm25" && p.total != truth {
+        s.fail("total.inexact-bm25", "total_hits_estimate is not exact for execution bm25", case, json!({"total": p.total, "truth": truth, "page": i}));
+      }
+    }
+
+    // ---- correspondence 1: the model's walk over the same keys ----
+    let dirs: Vec<bool> = plan.iter().map(|f| f.desc).collect();
+    let (real_gen, real_segs) = manifest_view(&idx);
+    if w.error.is_none() {
+      let m = drv.call("C11", json!({"op": "walk", "dirs": dirs, "keys": keys, "limit": limit}));
+      let mut model_pages: Vec<Value> = Vec::new();
+      let mut ok = m["ok"] == json!(true) && m["failed"] == json!(false);
+      if ok {
+        for (i, mp) in m["pages"].as_array().cloned().unwrap_or_default().iter().enumerate() {
+          let ids: Vec<String> = mp["hits"].as_array().cloned().unwrap_or_default().iter().map(|h| back.get(&(h[0].as_u64().unwrap_or(0), h[1].as_u64().unwrap_or(0))).cloned().unwrap_or_default()).collect();
+          let rp = w.pages.get(i);
+          let info = rp.and_then(|p| p.next.as_deref()).and_then(|c| read_cursor(c, fast));
+          let real_next = match (&info, rp.map(|p| p.next.is_some())) {
+            (Some(ci), _) => json!({"seg": ci.seg, "doc": ci.doc, "returned": ci.returned}),
+            (None, Some(true)) => json!("unreadable"),
+            _ => Value::Null,
+          };
+          let real_total = rp.map(|p| p.total);
+          let same = rp.map(|p| p.ids == ids).unwrap_or(false) && real_next == mp["next"] && (!exhaustive || real_total == mp["total"].as_u64());
+          if !same {
+            ok = false;
+          }
+          model_pages.push(json!({"ids": ids, "next": mp["next"], "total": mp["total"]}));
+        }
+        if model_pages.len() != npages {
+          ok = false;
+        }
+      }
+      if !ok {
+        let real: Vec<Value> = w.pages.iter().map(|p| json!({"ids": p.ids, "next": p.next.as_deref().and_then(|c| read_cursor(c, fast)).map(|ci| json!({"seg": ci.seg, "doc": ci.doc, "returned": ci.returned})), "total": p.total})).collect();
+        s.disagree("walk.pages", case, json!(real), if model_pages.is_empty() { m } else { json!(model_pages) });
+      }
+    }
+
+    // ---- correspondence 2: plan hash, generations, codec on every real cursor ----
+    let ph = drv.call("C11", json!({"op": "plan_hash", "fields": plan_json(&plan)}));
+    if ph["score_fast"] != json!(fast) {
+      s.disagree("plan.score_fast", case, json!(fast), ph.clone());
+    }
+    let hist = {
+      // the model's history: one commit per batch, then the optional delete-only commit
+      let mut ops: Vec<Value> = commits.iter().map(|b| json!({"op": "commit", "dels": [], "adds": b.len()})).collect();
+      let pre: Vec<String> = case["pre_delete"].as_array().map(|a| a.iter().filter_map(|x| x.as_str().map(|s| s.to_string())).collect()).unwrap_or_default();
+      if !pre.is_empty() {
+        let dels: Vec<Value> = pre.iter().filter_map(|id| addr.get(id)).map(|(sg, d, _)| json!([sg, d])).collect();
+        ops.push(json!({"op": "commit", "dels": dels, "adds": 0}));
+      }
+      ops
+    };
+    let mg = drv.call("C11", json!({"op": "gen", "segs": [], "ops": hist}));
+    let last = mg["states"].as_array().and_then(|a| a.last().cloned()).unwrap_or(Value::Null);
+    if last["generation"].as_u64() != Some(real_gen) || canon_segs(&last["segs"]) != real_segs {
+      s.disagree("index.generations", case, json!({"generation": real_gen, "segs": real_segs}), last.clone());
+    }
+    let req_model = json!({"generation": real_gen, "plan_hash": ph["hash"], "plan_len": plan.len(), "score_fast": fast});
+    let mut n_cursors = 0u64;
+    for p in w.pages.iter() {
+      let Some(cur) = p.next.as_deref() else { continue };
+      n_cursors += 1;
+      let info = read_cursor(cur, fast);
+      let d = drv.call("C11", json!({"op": "decode", "raw": cur, "req": req_model}));
+      let e = if d["class"] == json!("ok") { drv.call("C11", json!({"op": "encode", "score": fast, "state": d["state"]})) } else { Value::Null };
+      let agree = d["class"] == json!("ok")
+        && e["cursor"].as_str() == Some(cur)
+        && info.as_ref().map(|ci| d["state"]["generation"].as_u64() == Some(ci.generation) && d["state"]["returned"].as_u64() == Some(ci.returned) && d["state"]["segment_ord"].as_u64() == Some(ci.seg) && d["state"]["doc_id"].as_u64() == Some(ci.doc) && (fast || d["state"]["plan_hash"].as_u64() == ci.plan_hash)).unwrap_or(false)
+        && info.as_ref().map(|ci| ci.generation == real_gen && (fast || ci.plan_hash == ph["hash"].as_u64())).unwrap_or(false);
+      if !agree {
+        s.disagree("cursor.codec", case, json!({"cursor": cur, "read": format!("{info:?}"), "generation": real_gen}), json!({"decode": d, "encode": e, "plan_hash": ph}));
+      }
+    }
+    s.add("real_cursors_decoded_and_reencoded", n_cursors);
+
+    if w.error.is_some() {
+      s.count("walk_failed.mutations_and_replays_skipped");
+      return;
+    }
+    // ---- page 2 material ----
+    let Some(c1) = w.pages.first().and_then(|p| p.next.clone()) else {
+      s.count("single_page_walk");
+      return;
+    };
+    let page2 = w.pages.get(1).cloned();
+
+    // ---- correspondence 3: mutated cursors (ASCII only) ----
+    let d0 = drv.call("C11", json!({"op": "decode", "raw": c1, "req": req_model}));
+    for m in case["mutations"].as_array().cloned().unwrap_or_default() {
+      let Some(mc) = mutate(&c1, fast, &m) else {
+        s.count("mutation.not_applicable");
+        continue;
+      };
+      if !mc.is_ascii() {
+        s.count("mutation.non_ascii_skipped");
+        continue;
+      }
+      let sub = json!({"mutation": m, "cursor": mc, "of": c1});
+      let real = run(&reader, &base_req(case, &sort, limit, Some(&mc)));
+      if let Out::Panic(msg) = &real {
+        s.fail("cursor.panic-on-ascii-cursor", "search panicked on an ASCII cursor string", case, json!({"cursor": mc, "panic": msg}));
+        continue;
+      }
+      let md = drv.call("C11", json!({"op": "decode", "raw": mc, "req": req_model}));
+      let mclass = md["class"].as_str().unwrap_or("?").to_string();
+      s.count(&format!("mutation.model_{mclass}"));
+      match mclass.as_str() {
+        "unmodelled" => {}
+        "error" => {
+          if real.class() != "error" {
+            s.disagree("cursor.decode-class", case, json!({"sub": sub, "real": real.to_json()}), md.clone());
+          }
+        }
+        "ok" => {
+          let st = &md["state"];
+          let same_key = st["values"] == d0["state"]["values"] && st["segment_ord"] == d0["state"]["segment_ord"] && st["doc_id"] == d0["state"]["doc_id"];
+          if same_key {
+            // only `returned`, spelling or member order changed: the same page must come back
+            let okk = match (&real, &page2) {
+              (Out::Ok(p), Some(p2)) => p.ids == p2.ids,
+              _ => false,
+            };
+            if !okk {
+              s.disagree("cursor.equivalent-spelling", case, json!({"sub": sub, "real": real.to_json()}), md.clone());
+            }
+          } else {
+            // another key: ask the model's page function
+            let parts: Option<Vec<Value>> = st["values"].as_array().filter(|a| a.len() == plan.len()).map(|a| a.iter().zip(plan.iter()).map(|(v, f)| state_part(v, f.kind)).collect()).unwrap_or(None);
+            match parts {
+              Some(parts) if parts.len() == plan.len() => {
+                let mp = drv.call("C11", json!({"op": "page", "dirs": dirs, "keys": keys, "limit": limit,
+                  "cursor": {"key": {"parts": parts, "seg": st["segment_ord"], "doc": st["doc_id"]}, "returned": st["returned"]}}));
+                let agree = match (&real, mp["class"].as_str()) {
+                  (Out::Ok(p), Some("ok")) => {
+                    let ids: Vec<String> = mp["resp"]["hits"].as_array().cloned().unwrap_or_default().iter().map(|h| back.get(&(h[0].as_u64().unwrap_or(0), h[1].as_u64().unwrap_or(0))).cloned().unwrap_or_default()).collect();
+                    ids == p.ids && (!exhaustive || mp["resp"]["total"].as_u64() == Some(p.total))
+                  }
+                  (Out::Err(_), Some("error")) => true,
+                  _ => false,
+                };
+                s.count("mutation.other_key_paged");
+                if !agree {
+                  s.disagree("cursor.other-key-page", case, json!({"sub": sub, "real": real.to_json()}), json!({"decode": md, "page": mp}));
+                }
+              }
+              _ => s.count("mutation.other_key_not_rankable"),
+            }
+          }
+        }
+        _ => s.disagree("cursor.decode-class", case, json!({"sub": sub}), md.clone()),
+      }
+    }
+
+    // ---- stale cursors: the index changes (or the plan does), the page-1 cursor is replayed ----
+    let post = case["post"].as_str().unwrap_or("none").to_string();
+    let pick = case["post_pick"].as_u64().unwrap_or(0) as usize;
+    s.count(&format!("post.{post}"));
+    let cursor_id = w.pages[0].ids.last().cloned().unwrap_or_default();
+    let live_ids: Vec<String> = all.ids.clone();
+    let mut ops_after: Vec<Value> = Vec::new();
+    let mut expect_reject = true;
+    let mut sig = "";
+    let mut new_sort = sort.clone();
+    let mut commits_after = commits.clone();
+    match post.as_str() {
+      "commit_add" => {
+        let d = json!({"_id": "zz_new", "body": WORDS.join(" "), "tag": "a", "n": 0, "x": 0.5});
+        if let Err(e) = idx::add_commit(&idx, &[d.clone()]) {
+          s.notes.push(format!("C11 post commit failed: {e}"));
+          return;
+        }
+        commits_after.push(vec![d]);
+        ops_after.push(json!({"op": "commit", "dels": [], "adds": 1}));
+        sig = "cursor.accepted-after-commit";
+      }
+      "delete_only" | "delete_cursor_doc" => {
+        let victim = if post == "delete_cursor_doc" {
+          cursor_id.clone()
+        } else {
+          let others: Vec<&String> = live_ids.iter().filter(|i| **i != cursor_id).collect();
+          if others.is_empty() {
+            s.count("post.skipped_no_other_doc");
+            return;
+          }
+          others[pick % others.len()].clone()
+        };
+        if let Err(e) = idx::delete_commit(&idx, &[victim.clone()]) {
+          s.notes.push(format!("C11 post delete failed: {e}"));
+          return;
+        }
+        let (sg, dc, _) = addr.get(&victim).cloned().unwrap_or((0, 0, Value::Null));
+        ops_after.push(json!({"op": "commit", "dels": [[sg, dc]], "adds": 0}));
+        sig = if post == "delete_cursor_doc" { "cursor.accepted-after-deleting-the-cursor-document" } else { "cursor.accepted-after-delete-only-commit" };
+      }
+      "compact" => {
+        if let Err(e) = idx.compact() {
+          s.notes.push(format!("C11 post compact failed: {e}"));
+          return;
+        }
+        ops_after.push(json!({"op": "compact"}));
+        if commits.len() <= 1 {
+          expect_reject = false; // `compact` does nothing with one segment: the index is unchanged
+          s.count("post.compact_noop");
+        }
+        sig = "cursor.accepted-after-compaction";
+      }
+      "other_sort" => {
+        new_sort = case["other_sort"].clone();
+        sig = "cursor.accepted-by-other-sort-plan";
+      }
+      "reopen" => {
+        expect_reject = false;
+      }
+      _ => return,
+    }
+    let reopened: Option<Index> = if post == "reopen" {
+      match idx::open(_dir.path()) {
+        Ok(i) => Some(i),
+        Err(e) => {
+          s.notes.push(format!("C11 reopen failed: {e}"));
+          return;
+        }
+      }
+    } else {
+      None
+    };
+    let idx2: &Index = reopened.as_ref().unwrap_or(&idx);
+    let reader2 = match idx2.reader() {
+      Ok(r) => r,
+      Err(e) => {
+        s.notes.push(format!("C11 reader2 failed: {e}"));
+        return;
+      }
+    };
+    let real = run(&reader2, &base_req(case, &new_sort, limit, Some(&c1)));
+    if let Out::Panic(msg) = &real {
+      s.fail("cursor.panic-on-ascii-cursor", "search panicked on a replayed cursor", case, json!({"cursor": c1, "panic": msg}));
+      return;
+    }
+    s.count(&format!("post.{post}.real_{}", real.class()));
+    // finder: a changed index / another plan must reject
+    if expect_reject && real.class() == "ok" {
+      s.fail(sig, "a cursor was accepted although the index or the sort plan changed", case, json!({"post": post, "cursor": c1, "response": real.to_json()}));
+    }
+    // correspondence: generations after the operation, decode class under the new request
+    let (gen2, segs2) = manifest_view(idx2);
+    let mut hist2 = hist.clone();
+    hist2.extend(ops_after.iter().cloned());
+    let mg2 = drv.call("C11", json!({"op": "gen", "segs": [], "ops": hist2}));
+    let last2 = mg2["states"].as_array().and_then(|a| a.last().cloned()).unwrap_or(Value::Null);
+    if last2["generation"].as_u64() != Some(gen2) || canon_segs(&last2["segs"]) != segs2 {
+      s.disagree("index.generations-after", case, json!({"post": post, "generation": gen2, "segs": segs2}), last2.clone());
+    }
+    let plan2 = plan_of(&new_sort);
+    let ph2 = drv.call("C11", json!({"op": "plan_hash", "fields": plan_json(&plan2)}));
+    let req2 = json!({"generation": last2["generation"], "plan_hash": ph2["hash"], "plan_len": plan2.len(), "score_fast": is_score_fast(&plan2)});
+    let md = drv.call("C11", json!({"op": "decode", "raw": c1, "req": req2}));
+    match md["class"].as_str() {
+      Some("error") => {
+        if real.class() != "error" {
+          s.disagree("cursor.stale-decode", case, json!({"post": post, "real": real.to_json()}), md.clone());
+        }
+      }
+      Some("ok") => {
+        // the model accepts too (same generation and plan hash): compare the page it predicts on the
+        // new contents (scores are inputs: taken from a fresh covering request)
+        let addr2 = if post == "compact" && commits.len() > 1 { None } else { Some(addresses(&commits_after)) };
+        if let (Some(addr2), Out::Ok(all2)) = (addr2, run(&reader2, &base_req(case, &new_sort, ndocs + 6, None))) {
+          let (keys2, back2) = model_keys(&plan2, &addr2, &all2);
+          let st = &md["state"];
+          let parts: Option<Vec<Value>> = st["values"].as_array().filter(|a| a.len() == plan2.len()).map(|a| a.iter().zip(plan2.iter()).map(|(v, f)| state_part(v, f.kind)).collect()).unwrap_or(None);
+          if let Some(parts) = parts {
+            let dirs2: Vec<bool> = plan2.iter().map(|f| f.desc).collect();
+            let mp = drv.call("C11", json!({"op": "page", "dirs": dirs2, "keys": keys2, "limit": limit,
+              "cursor": {"key": {"parts": parts, "seg": st["segment_ord"], "doc": st["doc_id"]}, "returned": st["returned"]}}));
+            let agree = match (&real, mp["class"].as_str()) {
+              (Out::Ok(p), Some("ok")) => {
+                let ids: Vec<String> = mp["resp"]["hits"].as_array().cloned().unwrap_or_default().iter().map(|h| back2.get(&(h[0].as_u64().unwrap_or(0), h[1].as_u64().unwrap_or(0))).cloned().unwrap_or_default()).collect();
+                ids == p.ids
+              }
+              (Out::Err(_), Some("error")) => true,
+              _ => false,
+            };
+            if !agree {
+              s.disagree("cursor.stale-page", case, json!({"post": post, "real": real.to_json()}), json!({"decode": md, "page": mp}));
+            }
+          }
+        }
+      }
+      _ => s.disagree("cursor.stale-decode", case, json!({"post": post, "real": real.to_json()}), md.clone()),
+    }
+  }
+
+  /// one request whose limit covers all matches must return all of them, also for large limits
+  fn run_big(&self, drv: &mut Driver, case: &Value, s: &mut Summary) {
+    let n = case["docs"].as_u64().unwrap_or(0) as usize;
+    let dir = scratch();
+    let idx = match idx::create(dir.path(), &schema_json(), false) {
+      Ok(i) => i,
+      Err(e) => {
+        s.notes.push(format!("C11 big: create failed: {e}"));
+        return;
+      }
+    };
+    let docs: Vec<Value> = (0..n).map(|k| json!({"_id": format!("b{k:06}"), "body": "rust", "n": (k % 7) as i64})).collect();
+    if let Err(e) = idx::add_commit(&idx, &docs) {
+      s.notes.push(format!("C11 big: commit failed: {e}"));
+      return;
+    }
+    let reader = match idx.reader() {
+      Ok(r) => r,
+      Err(_) => return,
+    };
+    let c = json!({"query": case["query"].clone(), "execution": "bm25"});
+    let out = run(&reader, &base_req(&c, &case["sort"], n + 5, None));
+    s.case(case, true);
+    s.count("big_limit_case");
+    // correspondence: the model's single page over the same keys (given in ascending order so
+    // that the model's insertion sort is linear; one segment, doc id = rank of the id)
+    if let Out::Ok(p) = &out {
+      let mut ks: Vec<(i64, u64)> = (0..n as u64).map(|k| ((k % 7) as i64, k)).collect();
+      ks.sort();
+      let keys: Vec<Value> = ks.iter().map(|(v, k)| json!({"parts": [v], "seg": 0, "doc": k})).collect();
+      let mp = drv.call("C11", json!({"op": "page", "dirs": [false], "keys": keys, "limit": n + 5, "cursor": null}));
+      let mids: Vec<String> = mp["resp"]["hits"].as_array().cloned().unwrap_or_default().iter().map(|h| format!("b{:06}", h[1].as_u64().unwrap_or(0))).collect();
+      if mp["class"] != json!("ok") || mids != p.ids || mp["resp"]["next"].is_null() != p.next.is_none() || mp["resp"]["total"].as_u64() != Some(p.total) {
+        s.disagree("page.large-limit", case, json!({"hits": p.ids.len(), "first": p.ids.first(), "last": p.ids.last(), "next": p.next, "total": p.total}),
+          json!({"class": mp["class"], "hits": mids.len(), "first": mids.first(), "last": mids.last(), "next": mp["resp"]["next"], "total": mp["resp"]["total"]}));
+      }
+    }
+    match out {
+      Out::Ok(p) => {
+        if p.ids.len() != n && p.next.is_none() {
+          s.fail("all.silently-truncated-large-limit", "a single request with limit >= matches returned fewer hits than matches and no next_cursor", case, json!({"matches": n, "hits": p.ids.len(), "total_hits_estimate": p.total, "next_cursor": p.next}));
+        } else if p.ids.len() != n {
+          // truncated but resumable: follow the cursor and count
+          let mut got = p.ids.len();
+          let mut cur = p.next.clone();
+          let mut guard = 0;
+          while let Some(cu) = cur {
+            guard += 1;
+            if guard > 10 {
+              break;
+            }
+            match run(&reader, &base_req(&c, &case["sort"], n + 5, Some(&cu))) {
+              Out::Ok(q) => {
+                got += q.ids.len();
+                cur = q.next.clone();
+              }
+              o => {
+                s.fail("walk.page-error", "a page of the walk failed although the index did not change", case, o.to_json());
+                return;
+              }
+            }
+          }
+          if got != n {
+            s.fail("walk.missing", "the concatenated pages differ from the number of matches", case, json!({"matches": n, "hits": got}));
+          }
+        }
+        if p.total != n as u64 {
+          s.fail("total.inexact-bm25", "total_hits_estimate is not exact for execution bm25", case, json!({"total": p.total, "truth": n}));
+        }
+      }
+      o => s.fail("all.request-failed", "the single request covering all matches failed", case, o.to_json()),
+    }
+  }
+}
+
+impl Prop for C11 {
   fn id(&self) -> &'static str {
     "C11"
   }
   fn rule(&self) -> &'static str {
-    "stub"
+    "case = (1-4 commit batches = segments over a schema with text body, fast keyword tag, fast i64 n, fast f64 x; missing / single / multi values from small domains, cloned batches for score ties across segments, optional delete-only commit; query match_all | term | 1-4 words; sort plan default | _score asc/desc | 1-3 of {_score,tag,n,x} with asc/desc/default; page size 1..7; execution wand|bm25; one post operation commit_add | delete_only | delete_cursor_doc | compact | other_sort | reopen; 6 random ASCII cursor mutations + the advance cap 50000/50001). Non-trivial = the walk has >= 2 pages AND at least two matches tie on the primary sort value; distinct = distinct case JSON. The corpus adds one case per finding, among them a single request with limit > 20000 over 20011 matches."
   }
-  fn count(&self, _tier: Tier) -> usize {
-    0
+  fn count(&self, tier: Tier) -> usize {
+    tier.pick(301, 6001)
   }
-  fn gen(&self, _rng: &mut Rng, _tier: Tier, _i: usize) -> Value {
-    json!(null)
+  fn gen(&self, rng: &mut Rng, _tier: Tier, i: usize) -> Value {
+    // the `big` kind (one request with limit > MAX_CANDIDATE_SIZE over 20011 matches) runs from
+    // corpus/C11/large-limit.json on every check; in the thorough tier a second size is generated
+    if i == 0 && _tier == Tier::Thorough {
+      return json!({"kind": "big", "docs": 20002 + rng.below(40), "query": {"type": "match_all"}, "sort": [{"field": "n", "order": "asc"}]});
+    }
+    gen_walk(rng)
   }
-  fn run_case(&self, _drv: &mut Driver, _case: &Value, _s: &mut Summary) {}
+  fn run_case(&self, drv: &mut Driver, case: &Value, s: &mut Summary) {
+    match case["kind"].as_str() {
+      Some("big") => self.run_big(drv, case, s),
+      _ => self.run_walk(drv, case, s),
+    }
+  }
+  fn finish(&self, _tier: Tier, s: &mut Summary) {
+    s.exhaustive = false;
+    s.notes.push("execution bmw is not generated here (its pruning is C09's subject); non-ASCII cursor strings are C16's".into());
+  }
 }
